@@ -26,6 +26,20 @@ EXPLANATION = (
 )
 
 
+
+def _dispatcher_filter(repo, getter: str, default_name: str):
+    """The function the dispatcher hands to get_vehicles / get_requests as `filter_function` (by role, not by name): the nested
+    function of that name where it still exists, else whatever callable is passed."""
+    from .. import rules as _rules
+    solve = repo.func(DISP, "Dispatcher.generate_instructions._solve_assignment")
+    f = repo.func_opt(DISP, f"Dispatcher.generate_instructions._solve_assignment.{default_name}")
+    if f is not None:
+        return f
+    f = _rules.callable_argument(repo, solve, getter, "filter_function")
+    if f is None:
+        raise AnalysisError(f"_solve_assignment: no filter_function handed to {getter}")
+    return f
+
 def run(ctx: Ctx):
     guards.rule_enter_guards(ctx, "MEM", "D1")
     ctx.attempt(rules.rule_activity_writes, ctx, "D1")  # the guards above bind only if activities are installed through enter()
@@ -162,8 +176,8 @@ def dispatcher(ctx: Ctx):
     repo = ctx.repo
     gi = repo.func(DISP, "Dispatcher.generate_instructions")
     solve = repo.func(DISP, "Dispatcher.generate_instructions._solve_assignment")
-    vfn = repo.func(DISP, "Dispatcher.generate_instructions._solve_assignment._is_valid_for_dispatch")
-    rfn = repo.func(DISP, "Dispatcher.generate_instructions._solve_assignment._valid_request")
+    vfn = _dispatcher_filter(repo, "get_vehicles", "_is_valid_for_dispatch")
+    rfn = _dispatcher_filter(repo, "get_requests", "_valid_request")
     mid = solve.params[1]
     # vehicle filter: accepting => (fleet is None) or membership test involving the vehicle and the fleet id
     v = vfn.params[0]
